@@ -9,18 +9,22 @@ EXTENDS SpacePacket, Json, IOUtils
 
 Tr == ndJsonDeserialize(IOEnv.TRACE_FILE)
 
-VARIABLES l, queue, ids, clean
+VARIABLES l, queue, ids, clean, deliv
 
 Bad(e, why) == PrintT("BAD " \o ToString(e.id) \o " " \o why)
 
-TraceInit == l = 1 /\ queue = <<>> /\ ids = {} /\ clean = FALSE
+TraceInit == l = 1 /\ queue = <<>> /\ ids = {} /\ clean = FALSE /\ deliv = <<>>
 
 Step(e) ==
   CASE e.op = "init"  -> /\ queue' = <<>>
                          /\ ids' = {e.ids[i] : i \in DOMAIN e.ids}
                          /\ clean' = e.clean
+                         /\ deliv' = <<>>
+    \* the caller changed the list of registered packet IDs in place (same list object) between two calls
+    [] e.op = "set_ids" -> /\ ids' = {e.ids[i] : i \in DOMAIN e.ids}
+                           /\ UNCHANGED <<queue, clean, deliv>>
     [] e.op = "feed"  -> /\ queue' = Append(queue, e.chunk)
-                         /\ UNCHANGED <<ids, clean>>
+                         /\ UNCHANGED <<ids, clean, deliv>>
     [] e.op = "parse" -> LET r == Scan(Concat(queue), 1, <<>>, ids)
                              okOut  == e.out = r.out
                              okTail == clean => Concat(e.queue) = r.rest
@@ -28,12 +32,18 @@ Step(e) ==
                             /\ (IF okTail \/ ~okOut THEN TRUE ELSE Bad(e, "tail"))
                             /\ queue' = IF okOut /\ okTail /\ clean THEN (IF r.rest = <<>> THEN <<>> ELSE <<r.rest>>)
                                         ELSE e.queue          \* adopt the logged queue
+                            /\ deliv' = deliv \o e.out
                             /\ UNCHANGED <<ids, clean>>
+    \* end of a history: the whole stream was fed and a final parse made; whatever the per-call comparison adopted on
+    \* the way, every packet of the stream must have been returned exactly once, byte-identical, in order
+    \* (the driver only builds streams whose filler octets cannot form a registered packet ID with any neighbour)
+    [] e.op = "end"   -> /\ (IF deliv = e.packets THEN TRUE ELSE Bad(e, "lost-or-duplicated"))
+                         /\ UNCHANGED <<queue, ids, clean, deliv>>
 
 TraceNext == /\ l <= Len(Tr)
              /\ Step(Tr[l])
              /\ (l = Len(Tr) => PrintT("DONE " \o ToString(l)))
              /\ l' = l + 1
 
-TraceSpec == TraceInit /\ [][TraceNext]_<<l, queue, ids, clean>>
+TraceSpec == TraceInit /\ [][TraceNext]_<<l, queue, ids, clean, deliv>>
 =============================================================================
